@@ -330,6 +330,7 @@ type stack struct {
 	stopped atomic.Bool
 	geo     [4]int
 	lim     [2]int
+	handle  *core.VerifC28Handle // the SEND runtime, still reachable after Server.Stop
 }
 
 func newStack(in input) *stack {
@@ -383,6 +384,7 @@ func newStack(in input) *stack {
 		panic(err)
 	}
 	st.srv = srv
+	st.handle = srv.VerifC28Handle()
 	for i := 0; i < in.Sessions; i++ {
 		st.conns = append(st.conns, st.factory.MustOpen("l", uint64(i+1)))
 	}
@@ -465,7 +467,7 @@ func (st *stack) drainCap(limit time.Duration) bool {
 	ctx, cancel := context.WithTimeout(context.Background(), limit)
 	defer cancel()
 	t0 := st.rec.tick()
-	err := st.srv.DrainSends(ctx)
+	err := st.handle.DrainSends(ctx)
 	t1 := st.rec.tick()
 	st.rec.mu.Lock()
 	st.rec.drains = append(st.rec.drains, drainRec{t0: t0, t1: t1, ok: err == nil})
